@@ -1,4 +1,5 @@
 import DeapModel.Core.Loops
+import DeapModel.Core.LoopsCompose
 import Driver.Proto
 import Driver.C02
 /-!
@@ -29,6 +30,23 @@ Protocol handler for C03 (packaged loops) — trace replay.
   lists are comma-separated, `-` = empty.
 
 A loop name with the suffix `-nohof` is the same run with `halloffame=None` (the answer then has `shown=-`).
+
+COMPOSED replay (`Core/LoopsCompose.lean`: the C06 selection models compute the selection, the C08 model of
+`HallOfFame(hofsize)` is fed by the loop, list objects have identities, ask/tell protocol state):
+
+    C03 c-simple <heap> <pop> <evtable> <script> <hofsize> <gens>                 gens: `<sel>/<mate bits>/<mutate bits>`
+    C03 c-plus   <heap> <pop> <evtable> <script> <mu> <lambda> <hofsize> <gens>   gens: `<choices>/<sel>`
+    C03 c-comma  <heap> <pop> <evtable> <script> <mu> <lambda> <hofsize> <gens>
+    C03 c-harm   <heap> <pop> <evtable> <script> <nbrindsmodel> <hofsize> <gens>  gens as `harm`
+    C03 c-gu     <evtable> <hofsize> <gens>                                        gens as `gu`
+
+  `<sel>`: `b` (tools.selBest), `w` (selWorst), `r:<draws>` (selRandom), `t<tournsize>:<draws>` (selTournament);
+  draws = the `random.choice` results (indices) of that call, in call order; `p:<positions>` = any other selector
+  (selRoulette, selNSGA2): the positions it chose, read off the trace.
+  Answer: `log=… evals=… cb=<C0>+<C1>+… sel=<positions>+… vlog=…` with `Ck = <population oids>|<fits>|<hall of fame>|<ref>`
+  (hall of fame: `genome>fit;…` best first; ref: `same` when the variable `population` refers to the caller's list
+  object, else `other`; `-` for c-gu), `sel` = the positions the model's selector chose in each generation; for
+  c-gu `tells=<asked oids>~<told oid:fit;…>+…` instead of `sel`/`vlog`.
 
 Answer: `log=<gen:nevals,…> evals=<gen:oid,…> shown=<oid:fit;…> bounds=<B0>+<B1>+… vlog=<variation calls>`
 (`shown`: what `halloffame.update` received, each individual with the fitness it carried at that moment)
@@ -213,9 +231,155 @@ def handleH (hof : Bool) : List String → String
     | _, _ => "bad-op"
   | _ => "bad-op"
 
+/-! ### composed replay -/
+section Composed
+open LoopsC
+
+def hofBase : Nat := 1000000
+
+def parseSel (s : String) : Option Sel :=
+  if s = "b" then some .best
+  else if s = "w" then some .worst
+  else match s.splitOn ":" with
+    | [k, ds] =>
+      if k = "r" then (parseList parseNat ds).map Sel.random
+      else if k = "p" then (parseList parseNat ds).map Sel.given
+      else if k.startsWith "t" then do
+        let ts ← (k.drop 1).toString.toNat?
+        let d ← parseList parseNat ds
+        some (Sel.tournament ts d)
+      else none
+    | _ => none
+
+def showHof (c : CState) : String :=
+  if c.hof.items.isEmpty then "-" else
+    ";".intercalate (c.hof.items.map (fun i => showList toString i.genome ++ ">" ++ showList toString i.fit.wvalues))
+
+def showCB (gu : Bool) (c : CState) : String :=
+  showBound c.ls ++ "|" ++ showHof c ++ "|" ++ (if gu then "-" else if c.popRef = 0 then "same" else "other")
+
+/-- what the selector of a generation chose, recomputed from the states before and after the generation -/
+abbrev SelView := CState → CState → String
+
+def noSel : SelView := fun _ _ => "-"
+
+/-- positions are reported as the harness observes them: an object listed several times among the candidates is
+located at its FIRST position (identity, `is`) -/
+def showPositions (cand : List Nat) : Option (List Nat) → String
+  | some idx => showList toString (idx.map (fun i => match cand[i]? with | some o => cand.idxOf o | none => i))
+  | none => "none"
+
+/-- eaSimple: `select(population, len(population))` on the population before the generation -/
+def simpleSelView (sel : Sel) : SelView := fun c _ =>
+  showPositions c.ls.pop (sel.positions c.ls.st.heap c.ls.pop c.ls.pop.length)
+
+/-- the offspring of the generation = what the hall of fame was shown in it -/
+def offOf (c c' : CState) : List Nat := c'.ls.shown.drop c.ls.shown.length
+
+def plusSelView (sel : Sel) (mu : Nat) : SelView := fun c c' =>
+  showPositions (c.ls.pop ++ offOf c c') (sel.positions c'.ls.st.heap (c.ls.pop ++ offOf c c') mu)
+
+def commaSelView (sel : Sel) (mu : Nat) : SelView := fun c c' =>
+  showPositions (offOf c c') (sel.positions c'.ls.st.heap (offOf c c') mu)
+
+def creplay (ev : List Int → List Int) : List (Step Script × SelView) → Nat → Script → CState → List String →
+    List String → Option (Script × CState × List String × List String)
+  | [], _, t, c, acc, sels => some (t, c, acc, sels)
+  | x :: rest, g, t, c, acc, sels =>
+    match cgeneration ev x.1 .slice g t c with
+    | none => none
+    | some (t1, c1) => creplay ev rest (g + 1) t1 c1 (acc ++ [showCB false c1]) (sels ++ [x.2 c c1])
+
+def join (l : List String) : String := if l.isEmpty then "-" else "+".intercalate l
+
+def finishC (top : Option (Script × CState)) (r : Option (Script × CState × List String × List String)) : String :=
+  match r with
+  | none => if top.isNone then "reject" else "internal-mismatch"
+  | some (t, c, bounds, sels) =>
+    if (match top with
+        | none => true
+        | some (_, c') => !(c'.ls.pop == c.ls.pop && c'.ls.log == c.ls.log && c'.ls.evals == c.ls.evals
+            && showHof c' == showHof c && c'.popRef == c.popRef && c'.lists c'.popRef == c.lists c.popRef))
+    then "internal-mismatch"
+    else if !t.ok || !t.calls.isEmpty then "reject"
+    else if missing c.ls then "bad-table"
+    else
+      "log=" ++ showList showPair c.ls.log ++ " evals=" ++ showList showPair c.ls.evals
+        ++ " cb=" ++ join bounds ++ " sel=" ++ join sels ++ " vlog=" ++ showList showEv c.ls.st.log
+
+def runPopLoopC (c : Common) (hofsize : Nat) (steps : List (Step Script × SelView)) : String :=
+  let c0 := initState (mkState c.objs) c.pop hofsize hofBase
+  let ev := evOf c.tbl
+  let top := crunPop ev (steps.map (fun x => (x.1, Assign.slice))) ⟨c.script, true⟩ c0
+  match cgen0 ev c0 with
+  | none => "hof-raise"
+  | some g0 => finishC top (creplay ev steps 1 ⟨c.script, true⟩ g0 [showCB false g0] [])
+
+def showTell (x : Nat × Option (List Nat) × List (Nat × Obj)) : String :=
+  (match x.2.1 with | none => "none" | some l => showList toString l) ++ "~" ++
+    (if x.2.2.isEmpty then "-" else ";".intercalate (x.2.2.map (fun e => toString e.1 ++ ":" ++ showFit e.2)))
+
+def creplayGU (ev : List Int → List Int) : List (List (Nat × Obj) × List Nat) → Nat → Script → CState →
+    List String → Option (Script × CState × List String)
+  | [], _, t, c, acc => some (t, c, acc)
+  | x :: rest, g, t, c, acc =>
+    match guGeneration ev x.1 x.2 g t c with
+    | none => none
+    | some (t1, c1) => creplayGU ev rest (g + 1) t1 c1 (acc ++ [showCB true c1])
+
+def handleC : List String → String
+  | ["c-simple", heaps, pops, tbls, scr, hs, gens] =>
+    match parseCommon heaps pops tbls scr, parseNat hs, parseGens (fun
+        | [a, b, c] => do some (⟨← parseSel a, ← parseBits b, ← parseBits c⟩ : SimpleSelDec)
+        | _ => none) gens with
+    | some c, some hofsize, some ds =>
+      runPopLoopC c hofsize (ds.map (fun d => (simpleSelStep scripted d, simpleSelView d.sel)))
+    | _, _, _ => "bad-op"
+  | [kind, heaps, pops, tbls, scr, mus, lams, hs, gens] =>
+    match parseCommon heaps pops tbls scr, parseNat mus, parseNat lams, parseNat hs, parseGens (fun
+        | [a, b] => do some (⟨← parseList parseChoice a, ← parseSel b⟩ : MuLamSelDec)
+        | _ => none) gens with
+    | some c, some mu, some lam, some hofsize, some ds =>
+      if kind = "c-plus" then
+        runPopLoopC c hofsize (ds.map (fun d => (plusSelStep scripted mu lam d, plusSelView d.sel mu)))
+      else if kind = "c-comma" then
+        if commaAssert mu lam then
+          runPopLoopC c hofsize (ds.map (fun d => (commaSelStep scripted mu lam d, commaSelView d.sel mu)))
+        else "assert"
+      else "bad-op"
+    | _, _, _, _, _ => "bad-op"
+  | ["c-harm", heaps, pops, tbls, scr, nbrs, hs, gens] =>
+    match parseCommon heaps pops tbls scr, parseNat nbrs, parseNat hs, parseGens (fun
+        | [a, b] => do some (⟨← parseList parseTurn a, ← parseList parseTurn b⟩ : HarmDec Bool)
+        | _ => none) gens with
+    | some c, some nbr, some hofsize, some ds =>
+      runPopLoopC c hofsize (ds.map (fun d => (harmStep scripted nbr d, noSel)))
+    | _, _, _, _ => "bad-op"
+  | ["c-gu", tbls, hs, gens] =>
+    match parseTable tbls, parseNat hs, parseGens (fun
+        | [a, b] => do some ((← parseOidObjs a), (← parseList parseNat b))
+        | _ => none) gens with
+    | some tbl, some hofsize, some gs =>
+      let c0 := initState (mkState []) [] hofsize hofBase
+      match creplayGU (evOf tbl) gs 0 (⟨[], true⟩ : Script) c0 [],
+            eaGenerateUpdateC (evOf tbl) gs (⟨[], true⟩ : Script) (mkState []) hofsize hofBase with
+      | some (_, c, bounds), some (_, c') =>
+        if !(c'.ls.pop == c.ls.pop && c'.ls.log == c.ls.log && showHof c' == showHof c) then "internal-mismatch"
+        else if missing c.ls then "bad-table"
+        else
+          "log=" ++ showList showPair c.ls.log ++ " evals=" ++ showList showPair c.ls.evals
+            ++ " cb=" ++ join bounds ++ " tells=" ++ join (c.strat.tells.map showTell)
+      | none, none => "reject"
+      | _, _ => "internal-mismatch"
+    | _, _, _ => "bad-op"
+  | _ => "bad-op"
+
+end Composed
+
 def handle : List String → String
   | kind :: rest =>
-    if kind.endsWith "-nohof" then handleH false ((kind.dropEnd 6).toString :: rest) else handleH true (kind :: rest)
+    if kind.startsWith "c-" then handleC (kind :: rest)
+    else if kind.endsWith "-nohof" then handleH false ((kind.dropEnd 6).toString :: rest) else handleH true (kind :: rest)
   | [] => "bad-op"
 
 end DriverC03
